@@ -3,10 +3,18 @@ package main
 // Discipline obligations (locks, ownership, global frame) hook into the encoder here.
 
 import (
+	"fmt"
+	"strings"
 	"golang.org/x/tools/go/ssa"
 )
 
-func (e *enc) storeHook(b *ssa.BasicBlock, i *ssa.Store, l loc, v string) {}
+func (e *enc) storeHook(b *ssa.BasicBlock, i *ssa.Store, l loc, v string) {
+	if l.kind == "field" && e.w.immutableArr(l.arr) {
+		// immutable field: only objects allocated in this activation may be initialised
+		goal := fmt.Sprintf("(>= (birth %s) %s)", l.ref, e.now(e.entry))
+		e.addI("frame", "immutable:"+strings.TrimPrefix(l.arr, "H_"), i, e.reach[b], goal)
+	}
+}
 
 func (e *enc) mapWriteHook(b *ssa.BasicBlock, ins ssa.Instruction, m string) {}
 
